@@ -5,13 +5,16 @@ import (
 	"fmt"
 	"math/rand/v2"
 	"reflect"
+	"runtime"
 	"sync"
+	"time"
 	"unsafe"
 
 	"github.com/philpearl/avro"
 
 	"verifharness/core"
 	"verifharness/gen"
+	"verifharness/lib"
 	"verifharness/model"
 )
 
@@ -124,7 +127,7 @@ func c10fileLevel(c *core.Ctx, i int) {
 		stopAt = r.IntN(len(f.want))
 	}
 	errStop := fmt.Errorf("stop here")
-	err := avro.ReadFile(bytes.NewReader(f.file), reflect.New(rt).Interface(), func(val unsafe.Pointer, rb *avro.ResourceBank) error {
+	err := avro.ReadFile(bytes.NewReader(f.file), lib.NewTarget(rt, true), func(val unsafe.Pointer, rb *avro.ResourceBank) error {
 		if viol {
 			return nil
 		}
@@ -623,7 +626,86 @@ func c10bankLevel(c *core.Ctx, i int) {
 	}
 }
 
+// ---------- C. codec level, banks never extracted ----------
+
+// c10codecLevel: values decoded with Codec.Read through a ReadBuf whose bank is never extracted or closed. The
+// ReadBuf itself is dropped; the values stay in use. Collections (and whatever the runtime runs after them)
+// and later decoding through other ReadBufs must leave them as they were.
+func c10codecLevel(c *core.Ctx, i int) {
+	r := c.Rand(i, 3)
+	stress := c11stressTypes()
+	t := stress[r.IntN(len(stress))]
+	t = &gen.T{K: gen.KStruct, Fields: t.Fields}
+	if r.IntN(2) == 0 {
+		t = gen.GenStruct(r, gen.TypeOpts{MaxDepth: 3, MaxFields: 2 + r.IntN(4), NoExcluded: true})
+	}
+	rt := t.RT()
+	ls, err := lib.SchemaFor(rt)
+	if err != nil {
+		return
+	}
+	codec, err := lib.CodecFor(ls, rt)
+	if err != nil {
+		return
+	}
+	c.Journal(c.CurCase(), "codec-level "+trunc(t.String(), 300))
+	n := 6 + r.IntN(10)
+	var want, got []reflect.Value
+	var encs [][]byte
+	wb := avro.NewWriteBuf(nil)
+	for k := 0; k < n; k++ {
+		v := gen.NewValue(r, t, gen.ValOpts{NoInnerNil: true, NoBigStrings: true})
+		wb.Reset()
+		codec.Write(wb, v.Addr().UnsafePointer())
+		want = append(want, v)
+		encs = append(encs, append([]byte(nil), wb.Bytes()...))
+	}
+	verify := func(at string) bool {
+		for k := range got {
+			if d := model.EqualNorm(t, want[k], got[k], false, fmt.Sprintf("value[%d]", k)); d != "" {
+				c.Violate("retained-changed", fmt.Sprintf("a value decoded through a ReadBuf whose bank was never closed changed %s: %s\n type %s", at, d, trunc(t.String(), 300)), map[string]any{"type": t.String()})
+				return false
+			}
+			c.Count("retained-verifications", 1)
+		}
+		return true
+	}
+	for k := 0; k < n; k++ {
+		v := reflect.New(rt)
+		func() {
+			rb := avro.NewReadBuf(encs[k])
+			if err := codec.Read(rb, v.UnsafePointer()); err != nil {
+				c.Violate("read-error", fmt.Sprintf("Codec.Read of the codec's own output failed: %v", err), nil)
+			}
+			// rb goes out of scope here, its bank still open
+		}()
+		got = append(got, v.Elem())
+		if k%3 == 2 {
+			runtime.GC()
+			for y := 0; y < 20; y++ {
+				runtime.Gosched()
+			}
+			runtime.GC()
+			time.Sleep(200 * time.Microsecond) // lets finalizer/cleanup goroutines run; not a deadline
+			c.Count("collections-after-dropped-readbufs", 1)
+			if !verify("after collections") {
+				return
+			}
+		}
+	}
+	if !verify("by the end") {
+		return
+	}
+	c.Eval(n)
+	c.Count("codec-level-cases", 1)
+	c.Shape("codec|" + t.Shape())
+}
+
 func runC10(c *core.Ctx, i int) {
+	if i%10 == 9 {
+		c10codecLevel(c, i)
+		return
+	}
 	if i%2 == 0 {
 		c10fileLevel(c, i/2)
 	} else {
@@ -638,7 +720,7 @@ func init() {
 		ID:        "C10",
 		Level:     "exploration",
 		Technique: "runtime monitoring: (A) ReadFile callbacks retain records and banks under a seeded close policy while a competitor recycles banks from the pool at hook points; every retained record with an open bank is deep-compared after every later record; (B) random ResourceBank/ReadBuf operation sequences against a shadow model (zeroed, aligned, disjoint allocations, unique patterns re-verified after every operation), also from several goroutines; checkptr/ASan variants",
-		Rule: "A: multi-block files of every codec (stress shapes and random types with strings, bytes, pointers, maps, slices), close policy per record in {next record, 1..10 later, 10..50 later, never}; B: sequences of 250-800 operations over 2-6 ReadBufs: Alloc of 17 types (sizes 0 B..4 KiB, with and without pointers), NextAsString/ToString, ExtractResourceBank, Close; every fourth B case runs 2-6 goroutines sharing the pool; " +
+		Rule: "A: multi-block files of every codec (stress shapes and random types with strings, bytes, pointers, maps, slices), close policy per record in {next record, 1..10 later, 10..50 later, never}; B: sequences of 250-800 operations over 2-6 ReadBufs: Alloc of 17 types (sizes 0 B..4 KiB, with and without pointers), NextAsString/ToString, ExtractResourceBank, Close; every fourth B case runs 2-6 goroutines sharing the pool; one file in 48 holds records with 30 000-70 000 pointees of one type; a third level decodes through ReadBufs whose bank is never extracted or closed, drops the ReadBuf, forces collections and keeps verifying the values; " +
 			"distinct_nontrivial = distinct (level, type shape or sequence class) combinations",
 		Explanation: "A retained record may only change after its own bank is closed. In B every Alloc result must be non-nil, aligned, all zero and disjoint from every live range of every open bank; it is then filled with a unique pattern (valid pointers for pointerful types) and all live patterns and interned strings are re-verified after every operation, so the operation that corrupts something is identified. Address reuse after Close is counted to show recycling really happens.",
 		Modes: func(tier string) []core.Mode {
